@@ -22,7 +22,7 @@ TARGETS = ["Proofs/TilingFacts.vo", "Proofs/BlochFacts.vo", "Proofs/BlochComplet
 LEVEL = "proof"
 TRUST = [
     "LAPACK eigvalsh and float exp/cos/sin (shell): the spectral clause is checked numerically (tol 1e-8) on the implementation; the theorem proves the algebraic intertwining A_tiled.Phi = Phi.H(w) over any commutative ring, not the diagonalisation",
-    "standard linear algebra not proved in Coq: for the nx*ny pairs of roots of unity the Bloch-wave matrices Phi_k assemble to an invertible (Vandermonde x identity) matrix, hence spec(A_tiled) = union_k spec(H(k)) as multisets",
+    "the step from the intertwining relation to equality of spectra as multisets is proved (C08_bloch_complete: char_poly A_tiled = prod_k char_poly H(k), over any field with primitive nx-th / ny-th roots of unity in which nx*ny is invertible; MathComp, closed under the global context); what stays numerical is that LAPACK's eigenvalues are the roots of those characteristic polynomials",
     "hand-written Gallina model coq/Model/Bloch.v of k_hamiltonian / majorana_hamiltonian (bond sums, accumulating parallel edges): modelled, not verified; tied to the code by the exact entry comparison at w in {1,i,-1,-i}^2",
     "coq/Model/Tiling.v (tile_unit_cell over the generated helpers) is tied to the code by C10's correspondence run",
 ]
